@@ -76,7 +76,7 @@ def run(ctx):
             profiles["%s/w%d" % (drv, w)] = counts
             for sysc, errs in ERRNOS.items():
                 n = counts.get(sysc, 0)
-                cap = n if not quick else min(n, 12)
+                cap = n if not quick else min(n, 8)
                 for when in range(1, cap + 1):
                     for err in (errs if (not quick or sysc in ("openat", "getdents64", "ioctl", "lseek")) else [errs[when % len(errs)]]):
                         jobs.append((drv, w, sysc, err, when, None))
@@ -84,6 +84,17 @@ def run(ctx):
             for when in range(1, (8 if quick else 30) + 1):
                 for err in ["EIO"] if quick else ["EIO", "ENOSPC"]:
                     jobs.append((drv, w, "copy_file_range", err, when, "cfr.max=300"))
+    # the same single faults aimed at ONE OBJECT (strace -P <path>: only calls touching that path are candidates): every
+    # source and destination object x every call kind that can touch it; quick = seeded sample
+    objs = sorted({"/".join(e["p"]) for e in sc["fs0"] if e["p"][0] == "s"} | {"d/" + "/".join(e["p"]) for e in sc["fs0"] if e["p"][0] == "s"})
+    obj_jobs = []
+    for o_ in objs:
+        for sysc in ("openat", "statx", "newfstatat", "ftruncate", "copy_file_range", "fchmod", "utimensat", "fsync", "mkdir", "symlink", "mknodat", "getdents64", "lseek", "readlink"):
+            for drv in ("parfile", "parblock"):
+                obj_jobs.append((drv, 2, sysc, ERRNOS[sysc][0], 1, "OBJ:" + o_))
+    if quick:
+        obj_jobs = rnd.sample(obj_jobs, 140)
+    jobs += obj_jobs
     # second configuration: --ownership, so that the tolerated fchown failure is exercised together with what must follow it
     sc_own = scenario(extra=["--ownership"], name="all-ops-ownership")
     for drv in ("parfile", "parblock"):
@@ -93,7 +104,7 @@ def run(ctx):
     # third: one single-block file, every finalisation call of one kind failing, repeated: whichever thread ends up
     # holding the last reference to the handle has to report the failure
     sc_one = scenario_one()
-    for rep in range(40 if quick else 300):
+    for rep in range(24 if quick else 300):
         for sysc in ("fsync", "fchmod", "utimensat"):
             jobs.append(("parblock", [1, 2, 4, 8][rep % 4], sysc, "EIO", 0, "ONE%d" % rep))
     ctx.notes["syscall_profile(max per thread)"] = profiles
@@ -101,9 +112,15 @@ def run(ctx):
         drv, w, sysc, err, when, plan = j
         rid = "c04-%s-w%d-%s-%s-%d%s" % (drv, w, sysc, err, when, "-" + plan.replace("=", "") if plan else "")
         the_sc = sc_own if plan == "OWN" else (sc_one if plan and plan.startswith("ONE") else sc)
+        only = plan[4:] if plan and plan.startswith("OBJ:") else None
         env = {"XCP_VERIF_PLAN": plan} if plan and plan.startswith("cfr") else None
         inj_spec = "%s:error=%s:when=%d" % (sysc, err, when) if when > 0 else "%s:error=%s" % (sysc, err)
-        o = nsplane.run_one(binary, the_sc, drv, rid, workers=w, keep=True, timeout=90, env=env, strace={"trace": TRACE, "inject": [inj_spec]})
+        rid = rid.replace("/", "_").replace(":", "")
+        root_guess = os.path.join(scratch(), "ns-%s" % rid)
+        st_ = {"trace": TRACE, "inject": [inj_spec]}
+        if only:
+            st_["extra"] = ["-P", os.path.join(root_guess, only)]
+        o = nsplane.run_one(binary, the_sc, drv, rid, workers=w, keep=True, timeout=90, env=env, strace=st_)
         inj = []
         try:
             with open(o["_run"]["trace"], errors="replace") as f:
@@ -161,6 +178,8 @@ def run(ctx):
             why = []
             if "C02" in nv["viol"]:
                 why.append("destination tree differs from the expected one")
+            if plan and plan.startswith("OBJ:") and False:
+                pass
             if plan and plan.startswith("ONE"):
                 why.append("every %s on the destination failed, yet the run reports success" % sysc)
             if "C18" in ev["viol"] and sysc not in ():
